@@ -45,8 +45,19 @@ func (x *exch) coqH2() string {
 	if o.UseTrailers {
 		tr = "(Some " + coqFields(o.trailerWire) + ")"
 	}
-	return fmt.Sprintf("(H2Case %s %s %s %s %s %s %s %s %s)", hk.CoqBool(x.Method == "HEAD"), x.A.coqBody(), hk.CoqList(heads),
-		hk.CoqList(frames), tr, hk.CoqBool(x.hasBody()), coqMode[x.Mode], coqPat(x.Pat), x.coqObs())
+	after := "[]"
+	switch o.After {
+	case "rst-no-error":
+		after = "[H2Rst 0%N]"
+	case "rst-cancel":
+		after = "[H2Rst 8%N]"
+	case "goaway-close":
+		after = "[H2GoAwayClose]"
+	case "close":
+		after = "[H2ConnEnd]"
+	}
+	return fmt.Sprintf("(H2Case %s %s %s %s %s %s %s %s %s %s)", hk.CoqBool(x.Method == "HEAD"), x.A.coqBody(), hk.CoqList(heads),
+		hk.CoqList(frames), tr, after, hk.CoqBool(x.hasBody()), coqMode[x.Mode], coqPat(x.Pat), x.coqObs())
 }
 
 // groupLower: the fields as quic-go's server writes them: one run per canonical name (map iteration order
